@@ -47,7 +47,7 @@ def gen_plan(rng, tier, run):
     for i in range(rng.randint(1, 4)):
         src = rng.choice(files)
         data = pelgen.build(src["recipe"])
-        j = common.gen_junk(rng, data, pelgen.section_offsets(src["recipe"]))
+        j = common.gen_junk(rng, data, pelgen.section_offsets(src["recipe"]), fields=pelgen.field_offsets(src["recipe"]))
         junk.append({"name": rng.choice([src["name"] + ".part", "0" + src["name"], src["name"] + "~", "zz%d" % i, "A%d.pel" % i]),
                      "recipe": src["recipe"], "junk": j})
     names = set(f["name"] for f in files)
